@@ -654,4 +654,296 @@ theorem diff_truthful (s : Bool) (c : Cfg) (hc : Positional c) (l r : Node)
 
 example : Positional ⟨.position, .position⟩ := by decide
 
+/-! ## clean ⇔ equal as data -/
+
+theorem purge_strict_not_clean (q : Addr) (l : Node) (rest : List Entry) :
+    clean (purge true q l ++ rest) = false := by
+  cases l with
+  | scalar a v => cases v <;> simp [purge, isVoid, purgeCore, mkDel]
+  | seq a xs => cases xs <;> simp [purge, isVoid, purgeCore, delSeq, mkDel]
+  | map a es => cases es <;> simp [purge, isVoid, purgeCore, mkDel]
+  | set a ms => cases ms <;> simp [purge, isVoid, purgeCore, mkDel]
+
+theorem clean_addSeq (q : Addr) : ∀ (ys : List Node) (i : Nat), clean (addSeq q i ys) = ys.isEmpty := by
+  intro ys
+  cases ys with
+  | nil => intro i; rfl
+  | cons y ys => intro i; simp [addSeq, mkAdd]
+
+theorem clean_adds (q : Addr) (es : List (Key × Node)) : ∀ (fs : List (Key × Node)),
+    clean ((fs.filter (fun kv => !(hasKey es kv.1))).map (fun kv => mkAdd (q ++ [.key kv.1]) kv.2))
+      = fs.all (fun kv => hasKey es kv.1) := by
+  intro fs
+  induction fs with
+  | nil => rfl
+  | cons kv fs ih =>
+    cases h : hasKey es kv.1 with
+    | true => simp only [List.filter_cons, h, Bool.not_true, List.all_cons, Bool.true_and]; exact ih
+    | false => simp [h, mkAdd]
+
+theorem clean_set (q : Addr) (ms ns : List Key) :
+    clean (ms.map (fun k => if ns.contains k then (⟨.same, q ++ [.member k], some (keyNode k), some (keyNode k)⟩ : Entry)
+                     else mkDel (q ++ [.member k]) (keyNode k))
+      ++ (ns.filter (fun k => !(ms.contains k))).map (fun k => mkAdd (q ++ [.member k]) (keyNode k)))
+    = (ms.all (fun k => ns.contains k) && ns.all (fun k => ms.contains k)) := by
+  rw [clean_append]
+  congr 1
+  · induction ms with
+    | nil => rfl
+    | cons k ms ih =>
+      simp only [List.map_cons, clean_cons, List.all_cons, ih]
+      cases h : ns.contains k <;> simp [mkDel]
+  · generalize ms.contains = g
+    induction ns with
+    | nil => rfl
+    | cons k ns ih =>
+      cases h : g k with
+      | true => simp only [List.filter_cons, h, Bool.not_true, List.all_cons, Bool.true_and]; exact ih
+      | false => simp [h, mkAdd]
+
+theorem ite_same (b : Bool) : ((if b = true then Action.same else Action.change) == Action.same) = b := by
+  cases b <;> rfl
+
+theorem clean_shallow (q : Addr) : ∀ (xs ys : List Node) (i : Nat), clean (posShallow q i xs ys) = eqvList xs ys := by
+  intro xs
+  induction xs with
+  | nil => intro ys i; cases ys <;> simp [posShallow, eqvList, mkAdd]
+  | cons x xs ih =>
+    intro ys i
+    cases ys with
+    | nil => simp [posShallow, eqvList, mkDel]
+    | cons y ys =>
+      simp only [posShallow, clean_cons, eqvList, ih, scalarEntry]
+      cases eqv x y <;> simp
+
+/-- the induction hypothesis handed to the list lemmas -/
+def CleanIffAt (c : Cfg) (x : Node) : Prop :=
+  ∀ r q, wf x = true → wf r = true → clean (diffBetween true c q x r) = dataEq c x r
+
+theorem clean_pos (c : Cfg) (q : Addr) : ∀ (xs ys : List Node) (i : Nat),
+    (∀ x ∈ xs, CleanIffAt c x) → (∀ x ∈ xs, wf x = true) → (∀ y ∈ ys, wf y = true) →
+    clean (diffPos true c q i xs ys) = dataEqPos c xs ys := by
+  intro xs
+  induction xs with
+  | nil => intro ys i _ _ _; cases ys <;> simp [diffPos, dataEqPos, addSeq, mkAdd]
+  | cons x xs ih =>
+    intro ys i hih hwx hwy
+    cases ys with
+    | nil => simp [diffPos, dataEqPos, mkDel]
+    | cons y ys =>
+      simp only [diffPos, clean_append, dataEqPos]
+      rw [hih x (List.mem_cons_self ..) y _ (hwx x (List.mem_cons_self ..)) (hwy y (List.mem_cons_self ..)),
+        ih ys (i + 1) (fun z hz => hih z (List.mem_cons_of_mem _ hz)) (fun z hz => hwx z (List.mem_cons_of_mem _ hz))
+          (fun z hz => hwy z (List.mem_cons_of_mem _ hz))]
+
+theorem clean_dict (c : Cfg) (q : Addr) (fs : List (Key × Node)) (hwf : ∀ kv ∈ fs, wf kv.2 = true) :
+    ∀ (es : List (Key × Node)), (∀ kv ∈ es, CleanIffAt c kv.2) → (∀ kv ∈ es, wf kv.2 = true) →
+    clean (diffDict true c q es fs) = dataEqEntries c es fs := by
+  intro es
+  induction es with
+  | nil => intro _ _; simp [diffDict, dataEqEntries]
+  | cons kv es ih =>
+    obtain ⟨k, v⟩ := kv
+    intro hih hw
+    simp only [diffDict, clean_append, dataEqEntries]
+    rw [ih (fun kv hkv => hih kv (List.mem_cons_of_mem _ hkv)) (fun kv hkv => hw kv (List.mem_cons_of_mem _ hkv))]
+    congr 1
+    cases hf : fs.lookup k with
+    | some w => exact hih (k, v) (List.mem_cons_self ..) w _ (hw (k, v) (List.mem_cons_self ..)) (hwf (k, w) (mem_of_lookup hf))
+    | none => simp [mkDel]
+
+theorem clean_iff_node (c : Cfg) (hc : Positional c) : ∀ (l : Node), CleanIffAt c l := by
+  intro l
+  induction l using nodeInduct with
+  | hscalar a v =>
+    intro r q hl hr
+    cases r with
+    | scalar b w =>
+      simp only [diffBetween, dataEq, clean_cons, scalarEntry, eqv, clean_nil, Bool.and_true]
+      exact ite_same _
+    | seq b ys => simp only [diffBetween, dataEq]; exact purge_strict_not_clean ..
+    | map b fs => simp only [diffBetween, dataEq]; exact purge_strict_not_clean ..
+    | set b ns => simp only [diffBetween, dataEq]; exact purge_strict_not_clean ..
+  | hset a ms =>
+    intro r q hl hr
+    cases r with
+    | set b ns => simp only [diffBetween, dataEq]; exact clean_set q ms ns
+    | scalar b w => simp only [diffBetween, dataEq]; exact purge_strict_not_clean ..
+    | seq b ys => simp only [diffBetween, dataEq]; exact purge_strict_not_clean ..
+    | map b fs => simp only [diffBetween, dataEq]; exact purge_strict_not_clean ..
+  | hmap a es ih =>
+    intro r q hl hr
+    cases r with
+    | map b fs =>
+      simp only [diffBetween, dataEq, clean_append]
+      rw [clean_dict c q fs (wf_map hr).2 es ih (wf_map hl).2, clean_adds]
+    | scalar b w => simp only [diffBetween, dataEq]; exact purge_strict_not_clean ..
+    | seq b ys => simp only [diffBetween, dataEq]; exact purge_strict_not_clean ..
+    | set b ns => simp only [diffBetween, dataEq]; exact purge_strict_not_clean ..
+  | hseq a xs ih =>
+    intro r q hl hr
+    cases r with
+    | seq b ys =>
+      simp only [diffBetween, dataEq]
+      rcases listMode_positional hc xs ys with hm | hm | hm
+      · rw [hm]; rfl
+      · rw [hm]; exact clean_shallow q xs ys 0
+      · rw [hm]; exact clean_pos c q xs ys 0 ih (wf_seq_mem hl) (wf_seq_mem hr)
+    | scalar b w => simp only [diffBetween, dataEq]; exact purge_strict_not_clean ..
+    | map b fs => simp only [diffBetween, dataEq]; exact purge_strict_not_clean ..
+    | set b ns => simp only [diffBetween, dataEq]; exact purge_strict_not_clean ..
+
+/-- **Under positional comparison the strict report is clean exactly when the two documents are
+equal as data** (`dataEq`; under positional comparison: Python `==` on every compared pair). -/
+theorem diff_clean_iff_dataEq_strict (c : Cfg) (hc : Positional c) (l r : Node)
+    (hl : wf l = true) (hr : wf r = true) : clean (diff true c l r) = true ↔ dataEq c l r = true := by
+  unfold diff
+  rw [clean_iff_node c hc l r [] hl hr]
+
+/-- **The report of the code is clean exactly when the documents are equal as data**, on every
+pair of documents outside the class of finding C06-K1 (`report c l r = diff true c l r`: no null /
+empty container is compared with a node of another kind — a decidable condition). -/
+theorem diff_clean_iff_dataEq (c : Cfg) (hc : Positional c) (l r : Node)
+    (hl : wf l = true) (hr : wf r = true) (hv : report c l r = diff true c l r) :
+    clean (report c l r) = true ↔ dataEq c l r = true := by
+  rw [hv]; exact diff_clean_iff_dataEq_strict c hc l r hl hr
+
+/-- finding C06-K1 on the model: `{}` against `[]` gives an empty (hence clean) report -/
+example : clean (report ⟨.position, .position⟩ (.map none []) (.seq none [])) = true
+    ∧ dataEq ⟨.position, .position⟩ (.map none []) (.seq none []) = false
+    ∧ report ⟨.position, .position⟩ (.map none []) (.seq none []) ≠ diff true ⟨.position, .position⟩ (.map none []) (.seq none []) := by
+  decide +kernel
+
+/-- the hypothesis of `diff_clean_iff_dataEq` is met by documents with nulls and empty containers -/
+example : report ⟨.position, .position⟩ (.seq none [.scalar none .null, .seq none []]) (.seq none [.scalar none .null, .seq none [], .map none []])
+    = diff true ⟨.position, .position⟩ (.seq none [.scalar none .null, .seq none []]) (.seq none [.scalar none .null, .seq none [], .map none []]) := by
+  decide +kernel
+
+/-! ## completeness under positional comparison -/
+
+/-- some entry about the left document sits at `a` or above it -/
+def CoversL (rep : List Entry) (a : Addr) : Prop := ∃ e ∈ rep, e.action ≠ .add ∧ ∃ t, a = e.path ++ t
+/-- some entry about the right document sits at `a` or above it -/
+def CoversR (rep : List Entry) (a : Addr) : Prop := ∃ e ∈ rep, e.action ≠ .delete ∧ ∃ t, a = e.path ++ t
+
+theorem CoversL.mono {rep rep' : List Entry} {a : Addr} (hs : ∀ e ∈ rep, e ∈ rep') (h : CoversL rep a) : CoversL rep' a := by
+  obtain ⟨e, he, h1, h2⟩ := h; exact ⟨e, hs e he, h1, h2⟩
+theorem CoversR.mono {rep rep' : List Entry} {a : Addr} (hs : ∀ e ∈ rep, e ∈ rep') (h : CoversR rep a) : CoversR rep' a := by
+  obtain ⟨e, he, h1, h2⟩ := h; exact ⟨e, hs e he, h1, h2⟩
+
+theorem mem_leavesMap : ∀ {es : List (Key × Node)} {a : Addr}, a ∈ leavesMap es →
+    ∃ kv ∈ es, ∃ a' ∈ leaves kv.2, a = .key kv.1 :: a' := by
+  intro es
+  induction es with
+  | nil => intro a h; simp [leavesMap] at h
+  | cons kv es ih =>
+    obtain ⟨k, v⟩ := kv
+    intro a h
+    simp only [leavesMap, List.mem_append, List.mem_map] at h
+    cases h with
+    | inl h => obtain ⟨a', ha', rfl⟩ := h; exact ⟨(k, v), List.mem_cons_self .., a', ha', rfl⟩
+    | inr h => obtain ⟨kv, hkv, r⟩ := ih h; exact ⟨kv, List.mem_cons_of_mem _ hkv, r⟩
+
+theorem delSeq_covers (q : Addr) : ∀ (xs : List Node) (i : Nat), ∀ a ∈ leavesSeq i xs, CoversL (delSeq q i xs) (q ++ a) := by
+  intro xs
+  induction xs with
+  | nil => intro i a h; simp [leavesSeq] at h
+  | cons x xs ih =>
+    intro i a h
+    simp only [leavesSeq, List.mem_append, List.mem_map] at h
+    cases h with
+    | inl h =>
+      obtain ⟨a', _, rfl⟩ := h
+      exact ⟨mkDel (q ++ [.idx i]) x, by simp [delSeq], by simp [mkDel], a', by simp [mkDel]⟩
+    | inr h => exact (ih (i + 1) a h).mono (fun e he => by simp [delSeq, he])
+
+theorem addSeq_covers (q : Addr) : ∀ (ys : List Node) (i : Nat), ∀ a ∈ leavesSeq i ys, CoversR (addSeq q i ys) (q ++ a) := by
+  intro ys
+  induction ys with
+  | nil => intro i a h; simp [leavesSeq] at h
+  | cons y ys ih =>
+    intro i a h
+    simp only [leavesSeq, List.mem_append, List.mem_map] at h
+    cases h with
+    | inl h =>
+      obtain ⟨a', _, rfl⟩ := h
+      exact ⟨mkAdd (q ++ [.idx i]) y, by simp [addSeq], by simp [mkAdd], a', by simp [mkAdd]⟩
+    | inr h => exact (ih (i + 1) a h).mono (fun e he => by simp [addSeq, he])
+
+theorem purge_covers (q : Addr) (l : Node) : ∀ a ∈ leaves l, CoversL (purge true q l) (q ++ a) := by
+  intro a ha
+  cases l with
+  | scalar b v =>
+    simp only [leaves, List.mem_singleton] at ha
+    subst ha
+    refine ⟨mkDel q (.scalar b v), ?_, by simp [mkDel], [], by simp [mkDel]⟩
+    cases v <;> simp [purge, isVoid, purgeCore]
+  | seq b xs =>
+    cases xs with
+    | nil => simp [leaves, leavesSeq] at ha
+    | cons x xs =>
+      have : purge true q (.seq b (x :: xs)) = delSeq q 0 (x :: xs) := by simp [purge, isVoid, purgeCore]
+      rw [this]
+      exact delSeq_covers q (x :: xs) 0 a (by simpa [leaves] using ha)
+  | map b es =>
+    cases es with
+    | nil => simp [leaves, leavesMap] at ha
+    | cons kv es =>
+      have : purge true q (.map b (kv :: es)) = (kv :: es).map (fun kv => mkDel (q ++ [.key kv.1]) kv.2) := by
+        simp [purge, isVoid, purgeCore]
+      rw [this]
+      obtain ⟨kv', hkv, a', _, rfl⟩ := mem_leavesMap (by simpa [leaves] using ha)
+      exact ⟨mkDel (q ++ [.key kv'.1]) kv'.2, List.mem_map.mpr ⟨kv', hkv, rfl⟩, by simp [mkDel], a', by simp [mkDel]⟩
+  | set b ms =>
+    cases ms with
+    | nil => simp [leaves] at ha
+    | cons m ms =>
+      have : purge true q (.set b (m :: ms)) = (m :: ms).map (fun k => mkDel (q ++ [.member k]) (keyNode k)) := by
+        simp [purge, isVoid, purgeCore]
+      rw [this]
+      simp only [leaves, List.mem_map] at ha
+      obtain ⟨k, hk, rfl⟩ := ha
+      exact ⟨mkDel (q ++ [.member k]) (keyNode k), List.mem_map.mpr ⟨k, hk, rfl⟩, by simp [mkDel], [], by simp [mkDel]⟩
+
+theorem addAll_covers (q : Addr) (r : Node) : ∀ a ∈ leaves r, CoversR (addAll true q r) (q ++ a) := by
+  intro a ha
+  cases r with
+  | scalar b v =>
+    simp only [leaves, List.mem_singleton] at ha
+    subst ha
+    refine ⟨mkAdd q (.scalar b v), ?_, by simp [mkAdd], [], by simp [mkAdd]⟩
+    cases v <;> simp [addAll, isVoid, addAllCore]
+  | seq b xs =>
+    cases xs with
+    | nil => simp [leaves, leavesSeq] at ha
+    | cons x xs =>
+      have : addAll true q (.seq b (x :: xs)) = addSeq q 0 (x :: xs) := by simp [addAll, isVoid, addAllCore]
+      rw [this]
+      exact addSeq_covers q (x :: xs) 0 a (by simpa [leaves] using ha)
+  | map b es =>
+    cases es with
+    | nil => simp [leaves, leavesMap] at ha
+    | cons kv es =>
+      have : addAll true q (.map b (kv :: es)) = (kv :: es).map (fun kv => mkAdd (q ++ [.key kv.1]) kv.2) := by
+        simp [addAll, isVoid, addAllCore]
+      rw [this]
+      obtain ⟨kv', hkv, a', _, rfl⟩ := mem_leavesMap (by simpa [leaves] using ha)
+      exact ⟨mkAdd (q ++ [.key kv'.1]) kv'.2, List.mem_map.mpr ⟨kv', hkv, rfl⟩, by simp [mkAdd], a', by simp [mkAdd]⟩
+  | set b ms =>
+    cases ms with
+    | nil => simp [leaves] at ha
+    | cons m ms =>
+      have : addAll true q (.set b (m :: ms)) = (m :: ms).map (fun k => mkAdd (q ++ [.member k]) (keyNode k)) := by
+        simp [addAll, isVoid, addAllCore]
+      rw [this]
+      simp only [leaves, List.mem_map] at ha
+      obtain ⟨k, hk, rfl⟩ := ha
+      exact ⟨mkAdd (q ++ [.member k]) (keyNode k), List.mem_map.mpr ⟨k, hk, rfl⟩, by simp [mkAdd], [], by simp [mkAdd]⟩
+
+theorem clash_covers (q : Addr) (l r : Node) :
+    (∀ a ∈ leaves l, CoversL (purge true q l ++ addAll true q r) (q ++ a))
+    ∧ (∀ a ∈ leaves r, CoversR (purge true q l ++ addAll true q r) (q ++ a)) :=
+  ⟨fun a ha => (purge_covers q l a ha).mono (fun _ he => List.mem_append_left _ he),
+   fun a ha => (addAll_covers q r a ha).mono (fun _ he => List.mem_append_right _ he)⟩
+
 end Ypv.C06
